@@ -263,7 +263,7 @@ def scenario(ctx, lines, pend):
             pend.append((case, sim, real_chart, cb, k))
 
 
-def shared_plane_scenario(ctx):
+def shared_plane_scenario(ctx, force=None):
     """several images aligned in ONE align_wcs call in a user-supplied reference plane that is shared by all of
     them - a fresh corrector, or one of the inputs itself (it is then corrected in place between two images) -
     with and without expansion of the reference catalog: whatever the plane object goes through between two
@@ -276,12 +276,16 @@ def shared_plane_scenario(ctx):
         base_pt = (base_pt[0], math.copysign(75.0, base_pt[1]))
     nim = rng.choice([2, 3, 3])
     jw = rng.random() < 0.4             # all FITS or all mock JWST (one matcher-free call, match=None)
+    if force is not None:
+        nim, jw = 3, force[1]
     if jw:
         members = [scenes.mk_jwst(rng, pointing=base_pt)[0] for _ in range(nim)]
     else:
         members = [scenes.mk_fits(rng, kind=rng.choice(['cd', 'pc']), pointing=base_pt, scale=3e-5, shape=(1024, 1024))[0]
                    for _ in range(nim)]
     which = rng.choice(['member0', 'member-last', 'nonmember'])
+    if force is not None:
+        which = force[0]
     if which == 'nonmember':
         plane_obj = scenes.mk_jwst(rng, pointing=base_pt)[0] if jw else \
             scenes.mk_fits(rng, kind='cd', pointing=base_pt, scale=3e-5, shape=(1024, 1024))[0]
@@ -293,7 +297,11 @@ def shared_plane_scenario(ctx):
     # true positions in the chart; they must fall on every detector: a small central patch (100 pixels)
     pu = float(plane0.tanp_center_pixel_scale) if jw else 1.0
     half = (100.0 if jw else 150.0) * pu
-    R = np.array([[rng.uniform(-half, half) for _ in range(n)], [rng.uniform(-half, half) for _ in range(n)]])
+    # (centred on the common pointing, which every member sees at its reference pixel: the origin of a FITS tangent
+    #  plane is the detector's pixel (0, 0), that of a gWCS plane the tangent point)
+    ctr = np.array(plane0.world_to_tanp(base_pt[0], base_pt[1]), dtype=float).ravel()
+    R = np.array([[ctr[0] + rng.uniform(-half, half) for _ in range(n)],
+                  [ctr[1] + rng.uniform(-half, half) for _ in range(n)]])
     ra, dec = plane0.tanp_to_world(R[0], R[1])
     refcat = Table([np.asarray(ra, dtype=float), np.asarray(dec, dtype=float)], names=['RA', 'DEC'])
     ims, pix = [], []
@@ -344,7 +352,11 @@ def run(ctx):
     lines, pend = [], []
     for _ in range(ctx.n(30, 450)):
         scenario(ctx, lines, pend)
-    for _ in range(ctx.n(8, 80)):
+    # (the plane that is the FIRST image of the call changes in place before the other images are fitted in it:
+    #  that combination is in every run, for both corrector classes)
+    for force in (('member0', False), ('member0', False), ('member0', True), ('nonmember', False)):
+        shared_plane_scenario(ctx, force)
+    for _ in range(ctx.n(6, 80)):
         shared_plane_scenario(ctx)
     if lines:
         outs = ctx.driver(lines)
